@@ -176,6 +176,15 @@ func isNextOnNewLine(t1, t2 Token) bool {
 	// 	}
 	// }
 
+	// If the second token starts on an earlier line than
+	// the first, the two were spliced together from different
+	// places of the same file (tokens of a snippet that is
+	// defined further down, for example), so the second token
+	// cannot continue the first one's line
+	if t2.Line < t1.Line {
+		return true
+	}
+
 	// If the first token (incl line breaks) ends
 	// on a line earlier than the next token,
 	// then the second token is on a new line
